@@ -36,6 +36,10 @@ pub trait Compiler {
 
     fn compile(&mut self, tir: &AnyTir) -> Result<CompiledTx, Error>;
     fn reduce_op(&self, op: Self::CompilerOp) -> Result<Self::Expression, crate::reduce::Error>;
+
+    /// Called when the resolution of a new transaction starts, so that whatever the
+    /// compiler remembers about the previous one doesn't leak into it.
+    fn reset(&mut self) {}
 }
 
 impl<C> Visitor for C
